@@ -435,6 +435,8 @@ class LangServer:
             import_var_list = []
             for use_mod, use_info in use_dict.items():
                 if type(use_info) is Use:
+                    if use_mod not in self.obj_tree:
+                        continue
                     scope = self.obj_tree[use_mod][0]
                     only_list = use_info.rename()
                     tmp_list = child_candidates(
